@@ -146,7 +146,10 @@ func c10R1(r *Run, li *c10LaxInfo) {
 			r.Check("lax-writer:"+name, li.isLax(st.Val), r.Where(st), "lax field ← "+r.D.D(st.Val)+" (must be the incoming flag)")
 		}
 	}
-	r.Floor("writers of fieldParameters.lax", nw, 3)
+	// (what the count protects: the enumeration found the two kinds of writers there must be — the tag
+	// grammar, and at least one place that hands an incoming flag on to parameters parsed from a tag;
+	// parameters that are copied whole, or built as a literal, need no writer: (d) decides every call)
+	r.Floor("writers of fieldParameters.lax", nw, 2)
 	// (d) the parameters handed to parseField carry the incoming flag
 	pf := r.Fn("asn1.parseField")
 	if pf != nil {
@@ -245,6 +248,19 @@ func c10ParamsCarryLax(r *Run, li *c10LaxInfo, fn *ssa.Function, c ssa.CallInstr
 		}
 	}
 	a := args[ai]
+	// a function that gives back its parameter structure with the lax field untouched hands the
+	// flag on: the question is the one about its argument (rules_t8c10.go)
+	for d := 0; d < 4; d++ {
+		call, ok := a.(*ssa.Call)
+		if !ok {
+			break
+		}
+		k := c10LaxPassThrough(li, call)
+		if k < 0 {
+			break
+		}
+		a = call.Call.Args[k]
+	}
 	if !incoming {
 		if mustInherit {
 			r.Fail(key, r.Where(c), "the caller has no incoming lax flag to forward (its lax parameter or the lax field of its parameters)")
